@@ -611,6 +611,8 @@ def run(ctx, res):
     check_sparse(res, facts)
     check_div(res, facts)
     lincomb.check_poly_ops(res, facts)
+    from rules import c08_arith
+    c08_arith.check_polyarith(res, facts)
     check_cosetfold(res, facts)
     check_vanishdep(res, facts)
     check_evalpaths(res, facts)
